@@ -651,12 +651,47 @@ func RuleL1(c *Ctx) {
 		reg := callsTo(fn, "bandersnatch/fr", "Element", "ToBigIntRegular")
 		mont := callsTo(fn, "bandersnatch/fr", "Element", "ToBigInt")
 		sm := callsTo(fn, gbs, "PointProj", "ScalarMultiplication")
-		ok := len(reg) == 1 && len(mont) == 0 && len(sm) == 1 && len(core.CallsIn(fn)) == 2 && core.PostDominatesEntry(fn, sm[0])
+		// the only other thing it may do: answer the identity for an operand of the identity class (X = 0), which
+		// the dependency's GLV routine cannot take (rule E5)
+		var isz, setid *ssa.Call
+		for _, ci := range core.CallsIn(fn) {
+			call, isCall := ci.(*ssa.Call)
+			if !isCall {
+				continue
+			}
+			f := core.Callee(call.Common())
+			switch {
+			case f != nil && f.Name() == "IsZero" && len(call.Call.Args) == 1 && core.PathOf(call.Call.Args[0]) == "p:p1.inner.X":
+				isz = call
+			case core.IsMethod(f, "/banderwagon", "Element", "SetIdentity") && len(call.Call.Args) == 1 && core.PathOf(call.Call.Args[0]) == "p:p":
+				setid = call
+			}
+		}
+		guarded := isz != nil && setid != nil && len(core.CallsIn(fn)) == 4
+		ok := len(reg) == 1 && len(mont) == 0 && len(sm) == 1 && (guarded || (len(core.CallsIn(fn)) == 2 && core.PostDominatesEntry(fn, sm[0])))
+		if ok && guarded {
+			smCut, idCut := core.NewCuts(), core.NewCuts()
+			smCut.AddInstr(sm[0])
+			idCut.AddInstr(setid)
+			zeroArm := boolEdges(fn, isz, true)
+			for _, r := range core.Returns(fn) {
+				if core.MustPass(fn, smCut, r) {
+					continue
+				}
+				if !(core.MustPass(fn, zeroArm, r) && core.MustPass(fn, idCut, r) && len(r.Results) == 1 && (r.Results[0] == ssa.Value(setid) || core.PathOf(r.Results[0]) == "p:p")) {
+					ok = false
+				}
+			}
+			// the multiplication is not on the identity arm
+			if !zeroArm.Empty() && !core.ReachableAvoiding(fn, nil, zeroArm, sm[0]) {
+				ok = false
+			}
+		}
 		if ok {
 			ok = core.PathOf(reg[0].Call.Args[0]) == "*(p:scalarMont)" && sm[0].Call.Args[2] == reg[0].Call.Args[1] &&
 				core.PathOf(sm[0].Call.Args[0]) == "p:p.inner" && core.PathOf(sm[0].Call.Args[1]) == "p:p1.inner" && core.Precedes(fn, reg[0], sm[0])
 		}
-		c.Check(ok, "L1", "Element.ScalarMul", fn.Pos(), "ScalarMul does not, on every path, multiply p1 by the regular-form (non-Montgomery) integer of its scalar through PointProj.ScalarMultiplication (and nothing else)", "scalar.ToBigIntRegular(&big) then inner.ScalarMultiplication(&p1.inner, &big)")
+		c.Check(ok, "L1", "Element.ScalarMul", fn.Pos(), "ScalarMul does not, on every path, multiply p1 by the regular-form (non-Montgomery) integer of its scalar through PointProj.ScalarMultiplication (and nothing else, except answering the identity for an operand with X = 0)", "scalar.ToBigIntRegular(&big) then inner.ScalarMultiplication(&p1.inner, &big)")
 	} else {
 		c.Unresolved("L1", "banderwagon.(*Element).ScalarMul")
 	}
@@ -1267,19 +1302,44 @@ func RuleP1(c *Ctx) {
 	}
 	if pm := c.P.Fn("banderwagon", "", "NewPrecompMSM"); pm != nil {
 		c.Saw(core.FnName(pm))
-		ok := false
-		for _, call := range callsTo(pm, "/banderwagon", "", "NewPrecompPoint") {
-			// NewPrecompPoint(points[i], …) stored to precompPoints[i]
+		// every NewPrecompPoint(points[o+i], …) is stored to precompPoints[o+i]: the same index into the two
+		// lists, or into views of them that start at the same offset
+		viewOf := func(v ssa.Value) (base ssa.Value, low ssa.Value) {
+			if sl, isSl := v.(*ssa.Slice); isSl {
+				return sl.X, sl.Low
+			}
+			return v, nil
+		}
+		sameLow := func(a, b ssa.Value) bool {
+			if a == nil || b == nil {
+				za, okA := core.ConstInt(a)
+				zb, okB := core.ConstInt(b)
+				return (a == nil && b == nil) || (a == nil && okB && zb == 0) || (b == nil && okA && za == 0)
+			}
+			return a == b || constEq(a, b) || core.SameExpr(a, b)
+		}
+		calls := callsTo(pm, "/banderwagon", "", "NewPrecompPoint")
+		ok := len(calls) > 0
+		for _, call := range calls {
+			this := false
 			if u, isLoad := call.Call.Args[0].(*ssa.UnOp); isLoad {
-				if ia, isIA := u.X.(*ssa.IndexAddr); isIA && core.PathOf(ia.X) == "p:points" {
-					core.AllInstrs(pm, func(i ssa.Instruction) {
-						if st, isSt := i.(*ssa.Store); isSt {
-							if da, isDA := st.Addr.(*ssa.IndexAddr); isDA && da.Index == ia.Index && core.ReachFrom([]ssa.Value{call}, nil)[st.Val] {
-								ok = true
+				if ia, isIA := u.X.(*ssa.IndexAddr); isIA {
+					srcBase, srcLow := viewOf(ia.X)
+					if core.PathOf(srcBase) == "p:points" {
+						core.AllInstrs(pm, func(i ssa.Instruction) {
+							if st, isSt := i.(*ssa.Store); isSt {
+								if da, isDA := st.Addr.(*ssa.IndexAddr); isDA && da.Index == ia.Index && core.ReachFrom([]ssa.Value{call}, nil)[st.Val] {
+									if _, dstLow := viewOf(da.X); sameLow(srcLow, dstLow) {
+										this = true
+									}
+								}
 							}
-						}
-					})
+						})
+					}
 				}
+			}
+			if !this {
+				ok = false
 			}
 		}
 		c.Check(ok, "P1", "NewPrecompMSM:table-i-from-point-i", pm.Pos(), "table i is not built from basis point i", "precompPoints[i] = NewPrecompPoint(points[i], w)")
